@@ -1,7 +1,7 @@
 (* Correspondence for the runtime properties C02 C06 C19: what real encoding/json did with the
    compiled generated types (reflection dump) against Rt/JsonDecode.v run on the declarations
    the converter model produces for the same program. *)
-From Verif Require Import Base.Str Base.Sort Gen.Gql Gen.Directive Gen.Convert Rt.JsonDecode Rt.Acyclic Rt.JsonEncode Corr.Convcorr.
+From Verif Require Import Base.Str Base.Sort Gen.Gql Gen.Directive Gen.Convert Rt.JsonDecode Rt.Acyclic Rt.JsonEncode Rt.EncAcyclic Corr.Convcorr.
 From Coq Require Import ZArith.
 
 Inductive rres := RErr | RPanic | ROk (v : gval).
@@ -115,6 +115,9 @@ Definition rt_agrees (c : rt_case) : bool :=
       (* the hypothesis of the termination theorem (Proofs/DecodeTerm.v) holds of the type map
          generated for this program: no cycle of embedded structs / implementations *)
       same_json_acyclicb tm
+      (* ... and the hypothesis of the marshaling termination theorem (Proofs/EncodeTerm.v): no
+         struct contains itself by value, FlattenedFields is defined for every struct *)
+      && encode_termb tm
       && forallb (fun o => obs_agrees tm o && re_agrees tm o) (r_obs c)
   | _ => false
   end.
